@@ -526,7 +526,7 @@ func init() {
 		case int:
 			return strconv.Itoa(n)
 		case *sym:
-			return numstr{n}
+			return numstr{n: n}
 		}
 		panic("strconv.Itoa")
 	})
@@ -539,7 +539,7 @@ func init() {
 			}
 		case *sym:
 			if ok && base == 10 {
-				return numstr{n}
+				return numstr{n: n}
 			}
 		}
 		panic(unsupported("strconv.FormatInt shape"))
